@@ -558,13 +558,16 @@ func (s *Sim) joinOutputs() map[string]map[string]string {
 	return out
 }
 
+// stackBuf is reused by every run's goroutine dump (one run at a time per process).
+var stackBuf = make([]byte, 4<<20)
+
 // bubbleLeftovers lists, by their innermost library (or harness) function, the
 // goroutines of the current bubble other than the caller that still exist.
 func bubbleLeftovers() []string {
 	hideSync()
 	synctest.Wait()
 	showSync()
-	buf := make([]byte, 4<<20)
+	buf := stackBuf
 	n := runtime.Stack(buf, true)
 	me := goid()
 	bubbleOf := func(header string) string {
